@@ -670,10 +670,9 @@ theorem missing_command_rejects_section (cx : Ctx) (kind : PKind) (sec : Section
   rw [he] at hm
   cases hm
 
-/-- a failing [program:x] section makes the whole file fail.  PARTIAL: stated for sections that no [group:g]
-    section lists (hypothesis `hnot`); for a listed section the same holds through `heteroPrograms`, under the
-    additional assumption that section names are unique (true for every parsed file), not proved here. -/
-theorem section_error_rejects_file_partial (cx : Ctx) (ini : Ini) (sec : Section) (hmem : sec ∈ ini.sections)
+/-- a failing [program:x] section that no [group:g] section lists (hypothesis `hnot`) makes the whole file fail;
+    the general statement is `section_error_rejects_file` below -/
+theorem section_error_rejects_file_ungrouped (cx : Ctx) (ini : Ini) (sec : Section) (hmem : sec ∈ ini.sections)
     (hp : strStartsWith "program:" sec.name = true)
     (herr : ∀ g, ∃ e, processesFromSection cx .process sec (afterPrefix "program:" sec.name) g = .error e)
     (hnot : ∀ hg taken, heteroGroups cx ini ini.sections = .ok (hg, taken) → sec.name ∉ taken) :
@@ -696,6 +695,137 @@ theorem section_error_rejects_file_partial (cx : Ctx) (ini : Ini) (sec : Section
     cases hok
   obtain ⟨e, he⟩ := this
   exact ⟨e, by simp [processGroupsFromParser, he, Except.map]⟩
+
+theorem Forall2.exists_of_mem_right {α β : Type} {R : α → β → Prop} {as : List α} {bs : List β} (h : Forall2 R as bs)
+    {b : β} (hb : b ∈ bs) : ∃ a, a ∈ as ∧ R a b := by
+  induction h with
+  | nil => cases hb
+  | cons hr _ ih =>
+    rcases List.mem_cons.mp hb with rfl | hb'
+    · exact ⟨_, List.mem_cons_self, hr⟩
+    · obtain ⟨a, ha, hra⟩ := ih hb'
+      exact ⟨a, List.mem_cons_of_mem _ ha, hra⟩
+
+theorem mem_zip_of_mem_left {α β : Type} (l₁ : List α) (l₂ : List β) (h : l₁.length = l₂.length) (a : α) (ha : a ∈ l₁) :
+    ∃ b, (a, b) ∈ l₁.zip l₂ := by
+  induction l₁ generalizing l₂ with
+  | nil => cases ha
+  | cons x xs ih =>
+    cases l₂ with
+    | nil => simp at h
+    | cons y ys =>
+      rcases List.mem_cons.mp ha with rfl | ha'
+      · exact ⟨y, by simp⟩
+      · obtain ⟨b, hb⟩ := ih ys (by simpa using h) ha'
+        exact ⟨b, by simp [hb]⟩
+
+/-- every section a [group:g] took was processed successfully (as a member of that group) -/
+theorem heteroPrograms_taken_ok (cx : Ctx) (ini : Ini) (g : String) (programs : List String)
+    (procs : List PConfig) (taken : List String) (h : heteroPrograms cx ini g programs = .ok (procs, taken)) :
+    ∀ t ∈ taken, ∃ p sec ps, (t = "program:" ++ p ∨ t = "fcgi-program:" ++ p) ∧ ini.find t = some sec ∧
+      processesFromSection cx .process sec p g = .ok ps := by
+  obtain ⟨pss, _, hf, hl⟩ := heteroPrograms_spec cx ini g programs procs taken h
+  intro t ht
+  obtain ⟨ps, hz⟩ := mem_zip_of_mem_left taken pss hl t ht
+  obtain ⟨p, _, hor, _, sec, hfind, hok⟩ := hf.exists_of_mem_right hz
+  exact ⟨p, sec, ps, hor, hfind, hok⟩
+
+theorem heteroGroups_taken_ok (cx : Ctx) (ini : Ini) (secs : List Section) (hg : List GConfig) (taken : List String)
+    (h : heteroGroups cx ini secs = .ok (hg, taken)) :
+    ∀ t ∈ taken, ∃ p g sec ps, (t = "program:" ++ p ∨ t = "fcgi-program:" ++ p) ∧ ini.find t = some sec ∧
+      processesFromSection cx .process sec p g = .ok ps := by
+  induction secs generalizing hg taken with
+  | nil =>
+    simp only [heteroGroups] at h
+    injection h with h; injection h with _ h2; subst h2
+    intro t ht; cases ht
+  | cons sec rest ih =>
+    unfold heteroGroups at h
+    by_cases c : (!strStartsWith "group:" sec.name) = true
+    · rw [if_pos c] at h; exact ih hg taken h
+    · rw [if_neg c] at h
+      simp only [bind, Except.bind, pure, Except.pure] at h
+      cases h1 : processOrGroupName (afterPrefix "group:" sec.name) with
+      | error e => rw [h1] at h; cases h
+      | ok gname =>
+        rw [h1] at h; dsimp only at h
+        cases h2 : getField cx.penv "group" sec "programs" [] (hereExps cx) with
+        | error e => rw [h2] at h; cases h
+        | ok v2 =>
+          rw [h2] at h; dsimp only at h
+          cases h3 : asStrs v2 with
+          | error e => rw [h3] at h; cases h
+          | ok programs =>
+            rw [h3] at h; dsimp only at h
+            cases h4 : getField cx.penv "group" sec "priority" [] (hereExps cx) with
+            | error e => rw [h4] at h; cases h
+            | ok v4 =>
+              rw [h4] at h; dsimp only at h
+              cases h5 : asInt v4 with
+              | error e => rw [h5] at h; cases h
+              | ok prio =>
+                rw [h5] at h; dsimp only at h
+                cases h6 : heteroPrograms cx ini gname programs with
+                | error e => rw [h6] at h; cases h
+                | ok r =>
+                  obtain ⟨procs, tk⟩ := r
+                  rw [h6] at h; dsimp only at h
+                  cases h7 : heteroGroups cx ini rest with
+                  | error e => rw [h7] at h; cases h
+                  | ok r2 =>
+                    obtain ⟨gs, tk'⟩ := r2
+                    rw [h7] at h; dsimp only at h
+                    injection h with h; injection h with _ hh; subst hh
+                    intro t ht
+                    rcases List.mem_append.mp ht with ht | ht
+                    · obtain ⟨p, s', ps, a, b, c⟩ := heteroPrograms_taken_ok cx ini gname programs procs tk h6 t ht
+                      exact ⟨p, gname, s', ps, a, b, c⟩
+                    · exact ih gs tk' h7 t ht
+
+theorem afterPrefix_program (p : String) : afterPrefix "program:" ("program:" ++ p) = p := by
+  unfold afterPrefix
+  have h1 : ("program:" ++ p).toList = 'p' :: 'r' :: 'o' :: 'g' :: 'r' :: 'a' :: 'm' :: ':' :: p.toList := by
+    rw [String.toList_append]; rfl
+  have h2 : "program:".length = 8 := by decide
+  rw [h1, h2]
+  simp
+
+theorem fcgi_not_program (p : String) : strStartsWith "program:" ("fcgi-program:" ++ p) = false := by
+  unfold strStartsWith
+  have h1 : ("fcgi-program:" ++ p).toList = 'f' :: ("cgi-program:".toList ++ p.toList) := by
+    rw [String.toList_append]; rfl
+  have h2 : "program:".toList = 'p' :: "rogram:".toList := by decide
+  rw [h1, h2]
+  simp [isPrefixChars]
+
+/-- **a failing [program:x] section makes the whole file fail** — full version: also when a [group:g] section
+    lists the program (section names being unique, as they are in every parsed file: `hu`). -/
+theorem section_error_rejects_file (cx : Ctx) (ini : Ini) (sec : Section) (hmem : sec ∈ ini.sections)
+    (hu : ini.find sec.name = some sec)
+    (hp : strStartsWith "program:" sec.name = true)
+    (herr : ∀ g, ∃ e, processesFromSection cx .process sec (afterPrefix "program:" sec.name) g = .error e) :
+    ∃ e, processGroupsFromParser cx ini = .error e := by
+  cases hh : heteroGroups cx ini ini.sections with
+  | error e =>
+    exact ⟨e, by simp [processGroupsFromParser, groupsUnsorted, bind, Except.bind, hh, Except.map]⟩
+  | ok r =>
+    obtain ⟨hg, taken⟩ := r
+    apply section_error_rejects_file_ungrouped cx ini sec hmem hp herr
+    intro hg' taken' h' hin
+    rw [hh] at h'
+    injection h' with h'; injection h' with _ ht; subst ht
+    obtain ⟨p, g, sec', ps, hor, hfind, hok⟩ := heteroGroups_taken_ok cx ini ini.sections hg taken hh sec.name hin
+    rw [hu] at hfind
+    injection hfind with hfind
+    subst hfind
+    rcases hor with hname | hname
+    · have : afterPrefix "program:" sec.name = p := by rw [hname]; exact afterPrefix_program p
+      obtain ⟨e, he⟩ := herr g
+      rw [this, hok] at he
+      cases he
+    · rw [hname, fcgi_not_program] at hp
+      cases hp
+
 
 /-- … and a failing group stage makes `read_config` fail: the error reaches the caller as an error value -/
 theorem groups_error_rejects_config (ini : Ini) (r : Result) (h : readConfig ini = .ok r) :
